@@ -28,7 +28,7 @@ CONSTANTS Schema,    \* e.g. <<"int", "bigint", "varchar", "boolean">>: column c
           Only       \* class names the generator may use (to go deep with a small alphabet)
 
 ASSUME /\ Len(Src) = Len(Dst) /\ Len(Src) >= 1
-       /\ \A i, j \in 1..Len(Src) : i # j => (Src[i] # Src[j] /\ Dst[i] # Dst[j])
+       /\ \A i, j \in 1..Len(Src) : i # j => Dst[i] # Dst[j]      \* (one CSV field may feed several columns)
        /\ \A i \in 1..Len(Src) : Src[i] \in 0..(NFields - 1) /\ Dst[i] \in 1..Len(Schema)
 
 M == 1..Len(Src)
@@ -46,14 +46,14 @@ NullText == "\\N"
 
 IntOk    == <<"0", "-1", "2147483647", "-2147483648", "42", "007", "+5">>             \* 32-bit integers (decimal; zero padding and a sign are fine)
 IntRange == <<"2147483648", "-2147483649", "5000000000", "99999999999999999999">>   \* integers outside 32 bits
-NumBad   == <<"12x", "abc", "1.5", "0x1F", "1_000", "0b11">>                          \* not decimal integers at all
+NumBad   == <<"12x", "abc", "\\n", "1.5", "0x1F", "1_000", "0b11">>                          \* not decimal integers at all
 BigOk    == <<"5000000000", "-9223372036854775808", "9223372036854775807", "0", "-7", "2147483648", "0000010", "00000777">>
 BigBad   == <<"12x", "9223372036854775808", "abc", "0x1F", "1_000">>                 \* not 64-bit decimal integers
 \* the number a decimal text denotes, as canonical decimal text
 Canon(txt) == CASE txt = "007" -> "7" [] txt = "+5" -> "5" [] txt = "0000010" -> "10" [] txt = "00000777" -> "777" [] OTHER -> txt
 BoolOk   == <<"true", "false", "1", "0">>
-BoolBad  == <<"maybe", "2">>
-StrOk    == <<"abc", "a b", "#tag", "x,y", "q\"t", "s;t", "p|q", "tab\tx", "two\nlines", "it's", " lead">>
+BoolBad  == <<"maybe", "\\n", "2">>
+StrOk    == <<"abc", "a b", "#tag", "\\n", "x,y", "q\"t", "s;t", "p|q", "tab\tx", "two\nlines", "it's", " lead">>
 StrPlain == <<"abc", "def", "#tag", "xyz">>                                                  \* need no quoting under any separator
 
 Is32(txt) == InSeq(txt, IntOk)
